@@ -24,6 +24,8 @@ EXPLANATION = (
     ' decided by the sign of tan() at the float quarter turns) therefore runs here as well.'
     " R19.6: the converters follow start + sweep of the arc the solver produced; C05's rule that the radii are"
     ' made absolute before their first odd-power use runs here as well.'
+    ' R19.3: the slice count of Path.approximate_arcs_with_cubics/_quads is not clamped from above (an arc may'
+    ' sweep more than one turn).'
 )
 TECHNIQUE = (
     "static analysis (no execution): loop-carried continuity and end pinning; control-point formulas as exact canonical forms over opaque trig atoms; structural rules for path-level replacement"
